@@ -42,6 +42,30 @@ let fl_s (x : SpecFloat.spec_float) : string = match x with
   | S754_infinity false -> "inf" | S754_infinity true -> "ninf" | S754_nan -> "nan"
   | S754_finite (sg, m, e) -> Printf.sprintf "%s,%s,%s" (if sg then "1" else "0") (string_of_z (BinNums.Zpos m)) (string_of_z e)
 
+let rec nat_to_int n = (match n with Datatypes.O -> 0 | Datatypes.S k -> 1 + nat_to_int k)
+let hex32 w = Printf.sprintf "%02x%02x%02x%02x" (w land 255) ((w lsr 8) land 255) ((w lsr 16) land 255) ((w lsr 24) land 255)
+let nonempty s = if s = "" then "-" else s
+
+let weights_of (s : string) : Generator.weights =
+  if s = "-" then Generator.WNone
+  else if String.length s > 2 && String.sub s 0 2 = "I:" then
+    Generator.WInts (List.map z_of_string (String.split_on_char ',' (String.sub s 2 (String.length s - 2))))
+  else Generator.WFloats (List.map fl_of (String.split_on_char ';' (String.sub s 2 (String.length s - 2))))
+
+(* script lines as produced by tools/genslice.py (floats already as triples) *)
+let draw_of (line : string) : Generator.draw =
+  match split_ws line with
+  | [ "CH"; n; i ] -> Generator.DChoice (z_of_string n, z_of_string i)
+  | "CS" :: n :: k :: w :: idx -> Generator.DChoices (z_of_string n, z_of_string k, weights_of w, List.map z_of_string idx)
+  | [ "RI"; a; b; v ] -> Generator.DRandint (z_of_string a, z_of_string b, z_of_string v)
+  | "SA" :: a :: b :: c :: k :: vals ->
+    Generator.DSample (z_of_string a, z_of_string b, z_of_string c, z_of_string k, List.map z_of_string vals)
+  | "SH" :: n :: perm -> Generator.DShuffle (z_of_string n, List.map z_of_string perm)
+  | [ "GA"; m; s; x ] -> Generator.DGauss (fl_of m, fl_of s, fl_of x)
+  | [ "RA"; u ] -> Generator.DRandom (fl_of u)
+  | [ "RB"; n; hex ] -> Generator.DBytes (z_of_string n, List.map (fun c -> z_of_small (Char.code c)) (unhex hex))
+  | _ -> Generator.DChoice (z_of_small (-1), z_of_small (-1))      (* unknown event: always a mismatch *)
+
 let table_of t = match t with
   | "base" -> GenTables.base_table
   | "rimi" -> Types.dict_union GenTables.rimi_table GenTables.base_table
@@ -147,6 +171,42 @@ let () =
          | Some k -> print_string (string_of_z k ^ "\n") | None -> print_string "NONE\n")
       | [ "kind"; r; u ] ->
         print_string (if Samplers.kind_is_pic (fl_of r) (fl_of u) then "pic\n" else "method\n")
+      | "gen" :: rest ->
+        (* gen <variant> <int_start> <jit_start> <jit_size> <nb> <var_mean> <var_std> <depth_mean> <exp_depth>
+               <occ_mean> <occ_std> <ratio> <mean_case> <exp_case> <data_size> <strategy> <cmp> <hit>
+               <regs,> <data_reg> <weights,> <special_reg> <ss_size> <fuel> <nlines>   then nlines script lines *)
+        let a = Array.of_list rest in
+        let z i = z_of_string a.(i) in
+        let zl s = if s = "-" then [] else List.map z_of_string (String.split_on_char ',' s) in
+        let variant = (match a.(0) with "0" -> Generator.GBase | "1" -> Generator.GTramp | "2" -> Generator.GRimiSS
+                                      | "3" -> Generator.GRimiFull | _ -> Generator.GFixer) in
+        let cfg = Generator.make_config variant (z 1) (z 2) (z 3) (z 4) (fl_of a.(5)) (fl_of a.(6)) (z 7) (fl_of a.(8))
+            (fl_of a.(9)) (fl_of a.(10)) (fl_of a.(11)) (z 12) (fl_of a.(13)) (z 14) (clist_of_string a.(15))
+            (z 16) (z 17) (zl a.(18)) (z 19) (zl a.(20)) (z 21) (z 22) (nat_of_int (int_of_string a.(23))) in
+        let n = int_of_string a.(24) in
+        let script = List.init n (fun _ -> draw_of (input_line stdin)) in
+        (match Generator.run_gen cfg script with
+         | Builder.Err e -> print_string ("ERR " ^ err_s e ^ "\n")
+         | Builder.OK (im, left) ->
+           let words ws = String.concat "" (List.map (fun w -> hex32 (int_of_z w)) ws) in
+           let bytes bs = String.concat "" (List.map (fun b -> Printf.sprintf "%02x" (int_of_z b)) bs) in
+           let ms = im.Generator.im_methods in
+           let mrec (m : Generator.coq_method) =
+             Printf.sprintf "%s:%s:%s:%s:%s:%s:%s" (string_of_z m.Generator.m_addr) (string_of_z m.Generator.m_body)
+               (string_of_z m.Generator.m_calls) (string_of_z m.Generator.m_depth)
+               (string_of_z m.Generator.m_pro) (string_of_z m.Generator.m_epi)
+               (String.concat "," (List.map (fun i -> string_of_int (nat_to_int i)) m.Generator.m_callees)) in
+           let erec (e : Generator.elt) = (match e with
+               | Generator.EMethod id -> "M" ^ string_of_int (nat_to_int id)
+               | Generator.EPic p -> Printf.sprintf "P%s:%s:%s" (string_of_z p.Generator.p_addr)
+                                       (string_of_z p.Generator.p_cases)
+                                       (String.concat "," (List.map (fun i -> string_of_int (nat_to_int i)) p.Generator.p_methods))) in
+           print_string (Printf.sprintf "OK %s %s %s %s %d | %s | %s\n"
+                           (nonempty (words im.Generator.im_int)) (nonempty (words im.Generator.im_jit))
+                           (nonempty (bytes im.Generator.im_data)) (nonempty (bytes im.Generator.im_ss))
+                           (List.length left)
+                           (String.concat " " (List.map mrec ms))
+                           (String.concat " " (List.map erec im.Generator.im_elements))))
       | _ -> print_string "BAD\n")
     done
   with End_of_file -> ()
